@@ -411,7 +411,15 @@ pub fn parse_and_bind<R: FsModuleResolver>(
                     );
                 }
 
-                ImportReference::Default { .. } => {
+                ImportReference::Default { file_name, .. } => {
+                    // `import X from "./f"; export { X }` re-exports the default export of f
+                    symbol_exports.insert_unknown(
+                        renamed.to_string(),
+                        Rc::new(SymbolExport::SomethingOfOtherFile {
+                            something: "default".to_string(),
+                            file: file_name.clone(),
+                        }),
+                    );
                     continue;
                 }
             }
